@@ -245,7 +245,7 @@ theorem treeValid_false_aux (cat : Catalog) (now : Nat) (t : Node) (hd : t.subje
 Trust anchor (key 1, all resources) → CA (key 2, atoms 1 and 2) → child CA (key 3, atom 1).
 The CA configures a route in atom 2 (published), a route in atom 3 (not covered: no object), an
 ASPA for an AS it holds (published) and one for an AS it does not hold; the child CA configures a
-route in atom 1 and a router key for AS 64513. -/
+route in atom 1 and a router key for AS 64513; the CA also has a router key for AS 64514. -/
 
 namespace Example
 
@@ -255,6 +255,7 @@ def p3 : Payload := ⟨64515, false, (10 * 256 + 3) * 65536, 24, 24⟩
 def aspa1 : AspaDefn := ⟨64513, [64600]⟩
 def aspa2 : AspaDefn := ⟨64999, [64600]⟩
 def rk1 : RouterKey := ⟨64513, 42⟩
+def rk2 : RouterKey := ⟨64514, 43⟩
 
 def taCert : Cert := ⟨1, 1, .all, 10000, 1, 100, 101⟩
 def caCert : Cert := ⟨1, 2, .atoms [1, 2], 10000, 5, 100, 101⟩
@@ -264,11 +265,12 @@ def cat : Catalog := fun h =>
   if h = 900 then some (.mft ⟨1, 2, 0, 5000, [(101, 901), (10, 902)]⟩)
   else if h = 901 then some (.crl ⟨1, 2, 0, 5000, []⟩)
   else if h = 902 then some (.cert caCert)
-  else if h = 910 then some (.mft ⟨2, 7, 0, 5000, [(101, 911), (7, 912), (8, 913), (10, 914)]⟩)
+  else if h = 910 then some (.mft ⟨2, 7, 0, 5000, [(101, 911), (7, 912), (8, 913), (9, 915), (10, 914)]⟩)
   else if h = 911 then some (.crl ⟨2, 7, 0, 5000, [4]⟩)
   else if h = 912 then some (.signed ⟨2, 77, 9000, .roa [p2]⟩)
   else if h = 913 then some (.signed ⟨2, 78, 9000, .aspa aspa1⟩)
   else if h = 914 then some (.cert childCert)
+  else if h = 915 then some (.signed ⟨2, 79, 9000, .router rk2⟩)
   else if h = 920 then some (.mft ⟨3, 3, 0, 5000, [(101, 921), (7, 922), (9, 923)]⟩)
   else if h = 921 then some (.crl ⟨3, 3, 0, 5000, []⟩)
   else if h = 922 then some (.signed ⟨3, 11, 9000, .roa [p1]⟩)
@@ -277,13 +279,15 @@ def cat : Catalog := fun h =>
   else none
 
 def child : Node := .mk childCert [(100, 920), (101, 921), (7, 922), (9, 923)] [p1] [] [rk1] []
-def mid : Node := .mk caCert [(100, 910), (101, 911), (7, 912), (8, 913), (10, 914)] [p2, p3] [aspa1, aspa2] [] [child]
+def mid : Node :=
+  .mk caCert [(100, 910), (101, 911), (7, 912), (8, 913), (9, 915), (10, 914)] [p2, p3] [aspa1, aspa2] [rk2] [child]
 def tree : Node := .mk taCert [(100, 900), (101, 901), (10, 902)] [] [] [] [mid]
 
 /-- The same hierarchy with one more file at the grandchild's publication point that its manifest
 does not list. -/
 def badChild : Node := .mk childCert [(100, 920), (101, 921), (7, 922), (9, 923), (11, 999)] [p1] [] [rk1] []
-def badMid : Node := .mk caCert [(100, 910), (101, 911), (7, 912), (8, 913), (10, 914)] [p2, p3] [aspa1, aspa2] [] [badChild]
+def badMid : Node :=
+  .mk caCert [(100, 910), (101, 911), (7, 912), (8, 913), (9, 915), (10, 914)] [p2, p3] [aspa1, aspa2] [rk2] [badChild]
 def badTree : Node := .mk taCert [(100, 900), (101, 901), (10, 902)] [] [] [] [badMid]
 
 end Example
